@@ -35,3 +35,12 @@ Theorem C04_calls_name_earlier_definitions :
     forall k r, nth_error rs k = Some r -> forallb (instr_calls_below k) (r_code r) = true.
 Proof. exact C16_calls_earlier_proof. Qed.
 Print Assumptions C04_calls_name_earlier_definitions.
+
+(* ---- the parser accepts exactly the sentences of the documented grammar ---- *)
+From Theo Require Import SpecGrammar AcceptStatements Proofs_Accept.
+
+Theorem C04_parser :
+  forall body e, tk e = T_EOF -> Forall (fun t => tk t <> T_EOF) body ->
+    ((exists root, parse_tokens (body ++ [e]) = Ok (root, [])) <-> DS (map tk body)).
+Proof. exact C04_parser_proof. Qed.
+Print Assumptions C04_parser.
